@@ -62,6 +62,7 @@ type bArgs struct {
 	tmsi       string
 	r          *rand.Rand
 	badArg     string // which argument is out of range ("" = none)
+	extName    bool   // the name is longer than the root of its extensible SIZE(1..150,...): carried exactly or refused
 	srcAmfIsIE int64  // IE id that carries the amf argument (10, or 100 for PathSwitchRequest)
 }
 
@@ -358,8 +359,15 @@ func runC13(c *fw.Case) (o fw.Outcome) {
 	if r.Intn(3) == 0 {
 		a.tmsi = hexs(rbytes(r, 6))
 	}
+	if (strings.Contains(sp.uses, "gnb") || strings.Contains(sp.uses, "amfname")) && r.Intn(5) == 0 {
+		nb := make([]byte, pick(r, 151, 152, 200, 255, 256, 300, 1000))
+		for i := range nb {
+			nb[i] = "ABCxyz019 -.'()+,/:=?"[r.Intn(21)]
+		}
+		a.gnbName, a.extName = string(nb), true
+	}
 	// one case in five: exactly one identifier out of range
-	if r.Intn(5) == 0 {
+	if !a.extName && r.Intn(5) == 0 {
 		var cands []string
 		for _, u := range strings.Fields(sp.uses) {
 			switch u {
@@ -436,6 +444,14 @@ func runC13(c *fw.Case) (o fw.Outcome) {
 			o.Fail("not-refused:"+sp.name+":"+a.badArg, "%s accepted an out-of-range %s (amf=%d ran=%d psi=%d psis=%v plmn=%x gnb bits=%d) and produced %x", sp.name, a.badArg, a.amf, a.ran, a.psi, a.psis, a.plmn, a.gnbBits, clip(enc, 100))
 		}
 		return
+	}
+	if a.extName {
+		o.Tag("name-above-size-root")
+		if err != nil {
+			o.Count("names_above_the_root_refused", 1)
+			return
+		}
+		o.Count("names_above_the_root_encoded", 1)
 	}
 	if err != nil {
 		o.Fail("encode-error:"+sp.name, "%s fails for in-range arguments: %v", sp.name, err)
